@@ -20,6 +20,7 @@ import (
 	"github.com/paulsonkoly/chess-3/board"
 	. "github.com/paulsonkoly/chess-3/chess"
 	"github.com/paulsonkoly/chess-3/move"
+	"github.com/paulsonkoly/chess-3/movegen"
 	"github.com/paulsonkoly/chess-3/search"
 	"github.com/paulsonkoly/chess-3/uci"
 )
@@ -45,6 +46,14 @@ type Ev struct {
 	Alt   []Alt `json:"alt"`
 	Drv   *L    `json:"drv,omitempty"`
 	Dl    *Dl   `json:"dl,omitempty"`
+	Seq   *Seq  `json:"seq,omitempty"`
+}
+
+// Seq: a clock state sent as the SECOND go of a session whose first go carried other limits
+type Seq struct {
+	First string `json:"first"`
+	Got   L      `json:"got"` // soft time handed to the second search
+	N     int    `json:"n"`   // searches run in the session
 }
 
 // Dl is one deadline probe: a blocking search under `go wtime ...` while the GUI keeps talking.
@@ -62,12 +71,23 @@ type Dl struct {
 type blockSearch struct {
 	started chan struct{}
 	stopped chan time.Time
+	oddPly  bool // sit one ply below the root while blocked, as a real search does half of the time
 }
 
 func (m *blockSearch) Go(b *board.Board, opts ...search.Option) (Score, move.Move, move.Move) {
 	o := search.Options{}
 	for _, f := range opts {
 		f(&o)
+	}
+	if m.oddPly {
+		ms := move.NewStore()
+		ms.Push()
+		movegen.GenNotNoisy(ms, b)
+		if fr := ms.Frame(); len(fr) > 0 {
+			mv := fr[0].Move
+			rv := b.MakeMove(mv)
+			defer b.UndoMove(mv, rv)
+		}
 	}
 	close(m.started)
 	<-o.Stop
@@ -80,17 +100,22 @@ func (m *blockSearch) ResizeTT(int) {}
 // deadlineProbe: the hard deadline must end the search however many (harmless) lines the GUI
 // sends meanwhile. No assertion on being early or exact: only "not later than hard + slack".
 func deadlineProbe(kind string, ponder bool, wtime int64, slack int64) Dl {
-	_, _, hard := uci.VerifLimits(wtime, wtime, 0, 0, 0, White)
-	ms := &blockSearch{started: make(chan struct{}), stopped: make(chan time.Time, 1)}
+	return deadlineProbe2(kind, ponder, wtime, wtime, false, slack)
+}
+
+// deadlineProbe2: clocks may differ; oddPly: the search is one ply below the root when the deadline is armed
+func deadlineProbe2(kind string, ponder bool, wtime, btime int64, oddPly bool, slack int64) Dl {
+	_, _, hard := uci.VerifLimits(wtime, btime, 0, 0, 0, White)
+	ms := &blockSearch{started: make(chan struct{}), stopped: make(chan time.Time, 1), oddPly: oddPly}
 	pr, pw := io.Pipe()
 	done := make(chan struct{})
 	d := uci.NewDriver(uci.WithInput(pr), uci.WithOutput(io.Discard), uci.WithError(io.Discard), uci.WithSearch(ms))
 	go func() { d.Run(); close(done) }()
 	if ponder {
 		fmt.Fprintf(pw, "setoption name Ponder value true\n")
-		fmt.Fprintf(pw, "go ponder wtime %d btime %d\n", wtime, wtime)
+		fmt.Fprintf(pw, "go ponder wtime %d btime %d\n", wtime, btime)
 	} else {
-		fmt.Fprintf(pw, "go wtime %d btime %d\n", wtime, wtime)
+		fmt.Fprintf(pw, "go wtime %d btime %d\n", wtime, btime)
 	}
 	<-ms.started
 	if ponder {
@@ -158,6 +183,57 @@ func driverSoft(w, b, wi, bi, mt int64, stm int) int64 {
 	return ms.soft
 }
 
+// seqSearch records the soft time of every Go call of one driver session.
+type seqSearch struct{ softs []int64 }
+
+func (m *seqSearch) Go(b *board.Board, opts ...search.Option) (Score, move.Move, move.Move) {
+	o := search.Options{}
+	for _, f := range opts {
+		f(&o)
+	}
+	m.softs = append(m.softs, o.SoftTime)
+	return 0, 0, 0
+}
+func (m *seqSearch) Clear()       {}
+func (m *seqSearch) ResizeTT(int) {}
+
+// driverSession: several `go` commands through ONE driver, each sent after the previous one was answered (a
+// command sent while a search runs belongs to that search); what the search is handed for each of them
+func driverSession(gos []string) []int64 {
+	ms := &seqSearch{}
+	pr, pw := io.Pipe()
+	out := &lockedBuf{}
+	d := uci.NewDriver(uci.WithInput(pr), uci.WithOutput(out), uci.WithError(io.Discard), uci.WithSearch(ms))
+	done := make(chan struct{})
+	go func() { d.Run(); close(done) }()
+	for i, g := range gos {
+		fmt.Fprintf(pw, "%s\n", g)
+		for k := 0; k < 200000 && strings.Count(out.String(), "bestmove") < i+1; k++ {
+			time.Sleep(50 * time.Microsecond)
+		}
+	}
+	fmt.Fprintf(pw, "quit\n")
+	pw.Close()
+	<-done
+	return ms.softs
+}
+
+type lockedBuf struct {
+	mu  sync.Mutex
+	buf bytes.Buffer
+}
+
+func (l *lockedBuf) Write(p []byte) (int, error) {
+	l.mu.Lock()
+	defer l.mu.Unlock()
+	return l.buf.Write(p)
+}
+func (l *lockedBuf) String() string {
+	l.mu.Lock()
+	defer l.mu.Unlock()
+	return l.buf.String()
+}
+
 func main() {
 	shard := flag.Int("shard", 0, "")
 	nshards := flag.Int("nshards", 1, "")
@@ -204,6 +280,21 @@ func main() {
 		if drv {
 			d := limb(driverSoft(wt, bt, wi, bi, mt, stm))
 			e.Drv = &d
+			if stm == 0 {
+				// the same clock as the second go of a session: what came first must not matter
+				first := []string{"go movetime 777777", "go wtime 1 btime 1 winc 999 binc 999", "go depth 1", "go wtime 999999999 btime 999999999", "go movetime 1"}[n%5]
+				second := "go"
+				if mt > 0 {
+					second += fmt.Sprintf(" movetime %d", mt)
+				}
+				second += fmt.Sprintf(" wtime %d btime %d winc %d binc %d", wt, bt, wi, bi)
+				softs := driverSession([]string{first, second})
+				sq := Seq{First: first, N: len(softs)}
+				if len(softs) == 2 {
+					sq.Got = limb(softs[1])
+				}
+				e.Seq = &sq
+			}
 		}
 		if err := enc.Encode(e); err != nil {
 			panic(err)
@@ -215,16 +306,20 @@ func main() {
 			kind   string
 			ponder bool
 			wtime  int64
+			btime  int64
+			odd    bool
 		}
-		probes := []pr{{"isready", false, 3000}, {"unknown", false, 4500}, {"debug", false, 2000}, {"none", false, 3000},
-			{"isready", true, 3000}, {"unknown", true, 2400}}
+		probes := []pr{{"isready", false, 3000, 3000, false}, {"unknown", false, 4500, 4500, false}, {"debug", false, 2000, 2000, false}, {"none", false, 3000, 3000, false},
+			{"isready", true, 3000, 3000, false}, {"unknown", true, 2400, 2400, false},
+			// the opponent has all the time in the world, and the search is at an odd ply when the deadline is armed
+			{"none", true, 3000, 600000, true}, {"isready", false, 2400, 900000, true}, {"none", true, 2000, 2000, true}}
 		res := make([]Dl, len(probes))
 		var wg sync.WaitGroup
 		for i, p := range probes {
 			wg.Add(1)
 			go func() {
 				defer wg.Done()
-				res[i] = deadlineProbe(p.kind, p.ponder, p.wtime, 5000)
+				res[i] = deadlineProbe2(p.kind, p.ponder, p.wtime, p.btime, p.odd, 5000)
 			}()
 		}
 		wg.Wait()
